@@ -14,6 +14,7 @@ import (
 	"errors"
 	"fmt"
 	"math/rand"
+	"os"
 	"reflect"
 
 	"github.com/notaryproject/notation-core-go/signature"
@@ -48,6 +49,9 @@ type Input struct {
 	Garbage   bool   `json:"garbage"`
 	CtypeOk   bool   `json:"ctypeOk"`
 	Payload   JVal   `json:"payload"`
+	Lead      string `json:"lead"`   // bytes before the JSON document in the signed payload
+	Trail     string `json:"trail"`  // bytes after it
+	Spaced    bool   `json:"spaced"` // document rendered with blanks between tokens
 	GsKeyIdOk bool   `json:"gsKeyIdOk"`
 	GsAlg     string `json:"gsAlg"`
 	SigMode   string `json:"sigMode"` // good | flipped | otherKey | wrongHash | emptySig
@@ -174,10 +178,16 @@ func (p *plug) GenerateEnvelope(ctx context.Context, req *pluginfw.GenerateEnvel
 	if p.in.PluginErr == "generate" {
 		return nil, errors.New("scripted: generate-envelope fails")
 	}
-	p.payload = p.in.Payload.Render()
+	doc := p.in.Payload.Render()
+	if p.in.Spaced {
+		doc = p.in.Payload.RenderSpaced()
+	}
+	p.payload = append(append([]byte(p.in.Lead), doc...), p.in.Trail...)
 	cty := req.PayloadType
 	if !p.in.CtypeOk {
-		cty = pick(p.r, "application/vnd.cncf.notary.payload.v2+json", "application/json", "application/vnd.cncf.notary.payload.v1+JSON", "text/plain")
+		cty = pick(p.r, "application/vnd.cncf.notary.payload.v2+json", "application/json", "application/vnd.cncf.notary.payload.v1+JSON", "text/plain",
+			req.PayloadType+";version=2", req.PayloadType+"; charset=utf-8", " "+req.PayloadType, req.PayloadType+" ", "Application/Vnd.Cncf.Notary.Payload.V1+json",
+			"", req.PayloadType+"\n", "application/vnd.cncf.notary.payload.v1")
 	}
 	chain := p.chainDER()
 	if len(chain) > 0 {
@@ -190,8 +200,19 @@ func (p *plug) GenerateEnvelope(ctx context.Context, req *pluginfw.GenerateEnvel
 	} else {
 		env, err = buildJWS(p.payload, cty, p.in.Key, chain, p.sign)
 	}
+	if err != nil && !p.in.CtypeOk {
+		// go-cose refuses to ENCODE some malformed content types: use a plainly wrong one instead
+		cty = "application/json"
+		if p.in.EnvFmt == "cose" {
+			env, err = buildCOSE(p.payload, cty, p.in.Key, chain, p.sign)
+		} else {
+			env, err = buildJWS(p.payload, cty, p.in.Key, chain, p.sign)
+		}
+	}
 	if err != nil {
-		panic(fmt.Sprintf("scripted plugin cannot build its envelope: %v", err))
+		// a generator bug must be loud and must not be mistaken for a panic of the signer
+		fmt.Fprintf(os.Stderr, "c18 harness: scripted plugin cannot build its envelope: %v\n", err)
+		os.Exit(3)
 	}
 	if p.in.Garbage {
 		switch p.r.Intn(4) {
@@ -257,7 +278,8 @@ func runCase(c *common.Ctx, w *world, in *Input) {
 		if in.Api == "signBlob" {
 			s, e := signer.NewPluginSigner(p, keyID, map[string]string{"k": "v"})
 			if e != nil {
-				panic("harness: NewPluginSigner: " + e.Error())
+				fmt.Fprintln(os.Stderr, "c18 harness: NewPluginSigner:", e)
+				os.Exit(3)
 			}
 			sig, info, err = s.SignBlob(ctx, func(alg digest.Algorithm) (ocispec.Descriptor, error) { return desc, nil }, opts)
 		} else {
@@ -269,7 +291,8 @@ func runCase(c *common.Ctx, w *world, in *Input) {
 				s, e = signer.NewPluginSigner(p, keyID, nil)
 			}
 			if e != nil {
-				panic("harness: NewFromPlugin: " + e.Error())
+				fmt.Fprintln(os.Stderr, "c18 harness: NewFromPlugin:", e)
+				os.Exit(3)
 			}
 			sig, info, err = s.Sign(ctx, desc, opts)
 		}
@@ -410,6 +433,47 @@ func cryptoMutation(r *rand.Rand, in *Input) string {
 	}
 }
 
+var wsTexts = []string{" ", "\n", "\r\n\t ", "\t"}
+var junkTrails = []string{"]", "}", ",", "x", ":", "\"", "null", "0", "{}", "[]", "//c", "/**/", "\u0000", "\v", "\f", "\u00a0", "\u0085", "\u2028", "\ufeff", "\\n", " ]", "\n}"}
+var junkLeads = []string{"\ufeff", "\v", "\f", "\u00a0", "x", "[", ",", "{}", "null", "null\n", "\u0000", "\ufeff ", " \ufeff", "0 "}
+
+// secondDocs are whole JSON values a plugin may append to (or put before) the real document.
+func secondDocs(r *rand.Rand, in *Input) []string {
+	evil := string(goodPayload(evilDesc(r, in.Req)).Render())
+	same := string(goodPayload(in.Req).Render())
+	return []string{evil, "\n" + evil, " " + evil, "\r\n" + evil + "\n", "," + evil, same, "\n" + same, evil + evil}
+}
+
+// byteMutation changes the bytes AROUND the JSON document of the signed payload.
+func byteMutation(r *rand.Rand, in *Input) string {
+	switch r.Intn(8) {
+	case 0:
+		in.Trail = wsTexts[r.Intn(len(wsTexts))]
+		return "bytes:trailBlank"
+	case 1:
+		in.Lead = wsTexts[r.Intn(len(wsTexts))]
+		return "bytes:leadBlank"
+	case 2, 3:
+		d := secondDocs(r, in)
+		in.Trail = d[r.Intn(len(d))]
+		return "bytes:secondDocument"
+	case 4:
+		in.Trail = junkTrails[r.Intn(len(junkTrails))]
+		return "bytes:trailJunk"
+	case 5:
+		in.Lead = junkLeads[r.Intn(len(junkLeads))]
+		return "bytes:leadJunk"
+	case 6:
+		d := secondDocs(r, in)
+		in.Lead = d[r.Intn(len(d))]
+		return "bytes:documentBefore"
+	default:
+		in.Lead, in.Trail = wsTexts[r.Intn(len(wsTexts))], wsTexts[r.Intn(len(wsTexts))]
+		in.Spaced = true
+		return "bytes:blanksEverywhere"
+	}
+}
+
 // payload mutations that need a request with annotations to bite
 var annotationMutations = map[int]bool{3: true, 4: true, 7: true, 20: true}
 
@@ -483,6 +547,83 @@ func Run(c *common.Ctx) error {
 			runCase(c, w, in)
 		}
 	}
+	// 2b. the bytes around the document: every blank / junk / second-document text, before and after,
+	// around the requested document, around one with an unknown member, and around a wrong one
+	for _, f := range formats {
+		variants := func(in *Input) []string {
+			out := []string{"good"}
+			_ = in
+			return append(out, "unknownMember", "wrongDigest")
+		}
+		emit := func(lead, trail, variant, tag string) {
+			in := base(r, apis[n%2], "envelope", f, keyNames[n%6])
+			n++
+			switch variant {
+			case "unknownMember":
+				mutatePayload(r, in, 9)
+			case "wrongDigest":
+				mutatePayload(r, in, 0)
+			}
+			if lead == "<doc>" {
+				d := secondDocs(r, in)
+				lead = d[r.Intn(len(d))]
+			}
+			if trail == "<doc>" {
+				d := secondDocs(r, in)
+				trail = d[r.Intn(len(d))]
+			}
+			in.Lead, in.Trail = lead, trail
+			in.Spaced = n%3 == 0
+			c.Count("gen=bytes:" + tag + "/" + variant)
+			runCase(c, w, in)
+		}
+		for _, v := range variants(nil) {
+			for _, t := range wsTexts {
+				emit("", t, v, "trailBlank")
+				emit(t, "", v, "leadBlank")
+			}
+			for _, t := range junkTrails {
+				emit("", t, v, "trailJunk")
+			}
+			for _, t := range junkLeads {
+				emit(t, "", v, "leadJunk")
+			}
+			for k := 0; k < 8; k++ {
+				emit("", "<doc>", v, "secondDocument")
+			}
+			for k := 0; k < 3; k++ {
+				emit("<doc>", "", v, "documentBefore")
+			}
+		}
+	}
+	// 2c. an original annotation with an EMPTY value is dropped / kept / nulled (a missing key and an
+	// empty value must not be confused)
+	for _, f := range formats {
+		for k := 0; k < 4; k++ {
+			for _, how := range []string{"drop", "keep", "null", "dropAll"} {
+				in := base(r, apis[k%2], "envelope", f, keyNames[(n+k)%6])
+				in.Req.Annotations = [][2]string{{"io.example.prerelease", ""}}
+				if k >= 2 {
+					in.Req.Annotations = append(in.Req.Annotations, [2]string{"a", "1"})
+				}
+				d := in.Req
+				switch how {
+				case "drop":
+					d.Annotations = d.Annotations[1:]
+				case "dropAll":
+					d.Annotations = nil
+				}
+				in.Payload = goodPayload(d)
+				if how == "null" {
+					t := target(&in.Payload)
+					a := &t.O[len(t.O)-1].Val
+					a.O[0].Val = Null()
+				}
+				c.Count("gen=emptyAnnotation:" + how)
+				runCase(c, w, in)
+			}
+		}
+	}
 	// 3. random combinations
 	total := 3000
 	if c.Thorough() {
@@ -499,7 +640,11 @@ func Run(c *common.Ctx) error {
 		switch r.Intn(10) {
 		case 0, 1, 2, 3, 4: // payload deviations only
 			for j := r.Intn(3) + 1; j > 0; j-- {
-				tags = append(tags, mutatePayload(r, in, r.Intn(numPayloadMutations)))
+				if r.Intn(5) == 0 {
+					tags = append(tags, byteMutation(r, in))
+				} else {
+					tags = append(tags, mutatePayload(r, in, r.Intn(numPayloadMutations)))
+				}
 			}
 		case 5, 6, 7: // one crypto / protocol deviation
 			tags = append(tags, cryptoMutation(r, in))
@@ -513,13 +658,17 @@ func Run(c *common.Ctx) error {
 				in.Payload = randomJVal(r, 3)
 			}
 		}
+		if r.Intn(6) == 0 {
+			in.Spaced = true
+		}
 		c.Count(fmt.Sprintf("gen=random(%d deviations)", len(tags)))
 		runCase(c, w, in)
 	}
 	c.Note("scripted plugin.SignPlugin over 2 apis x 2 formats x 6 key specs x {envelope, raw, both, neither}; "+
 		"%d payload mutation kinds (value/type changes, dropped members, annotation edits, extra members at both levels, "+
 		"alternative spellings incl. U+017F/U+212A, duplicate members, null / non-object targets, non-object documents) "+
-		"signed with real keys; JWS envelopes assembled by hand, COSE through go-cose; signature modes %v; chains ok,%v.",
+		"signed with real keys; payload BYTES = lead + document (compact or spaced) + trail with blanks, BOM, junk bytes and whole second "+
+		"documents before / after the first JSON value; JWS envelopes assembled by hand, COSE through go-cose; signature modes %v; chains ok,%v.",
 		numPayloadMutations, sigModes, chains)
 	return nil
 }
